@@ -137,7 +137,7 @@ pub struct NetInner {
     endpoints: HashMap<SocketAddr, Endpoint>,
     seq: u64,
     pub ordinals: [u32; 2],
-    link_free_at: [Option<Instant>; 2],
+    pub link_free_at: [Option<Instant>; 2],
     pub log: Vec<WireEvent>,
     pub fired: BTreeMap<&'static str, u64>,
     /// (endpoint, remote) -> byte ledger (C15)
